@@ -382,7 +382,18 @@ var prop = h.Prop[Spec]{
 				}
 			case "edits":
 				f.To = []string{f.Path}
-				if i == 0 {
+				if i == 0 && rapid.IntRange(0, 29).Draw(t, "long-shifted-file") == 0 {
+					// one small length-changing edit near the start of a file of 18-30 MiB: every internal buffer
+					// wrap (about every 4.1 MiB) falls into shifted, reusable data
+					f.Size = rapid.IntRange(18, 30).Draw(t, "long-mib")<<20 + rapid.IntRange(0, h.BS).Draw(t, "long-tail")
+					e := Edit{Off: rapid.IntRange(0, 3*h.BS).Draw(t, "long-off")}
+					if rapid.Bool().Draw(t, "long-insert") {
+						e.Ins = rapid.IntRange(1, 100).Draw(t, "long-ins")
+					} else {
+						e.Del = rapid.IntRange(1, 100).Draw(t, "long-del")
+					}
+					f.Edits = []Edit{e}
+				} else if i == 0 {
 					f.Edits = genEdits(t, f.Size)
 					if rapid.IntRange(0, 3).Draw(t, "edited-and-renamed") == 0 {
 						f.To = []string{"moved/" + f.Path}
